@@ -1,5 +1,7 @@
 import KitModel.Go.Prelude
 import KitModel.CronSpec
+import KitModel.CronBridge
+import Driver.C04Parser
 /-!
 Driver for C04 (Next half): `kitdrv C04 next`.  One request per line, one answer per line.
 
@@ -8,6 +10,9 @@ Driver for C04 (Next half): `kitdrv C04 next`.  One request per line, one answer
 * `every delay=<ns> t=<unix ns>` → `at <unix ns>`;  `everyd d=<ns>` → `delay <ns>`
 * `civil t=<unix s>` → `<year> <month> <day> <hour> <minute> <second> <weekday> <offset>`
 * `date y= m= d= h= mi= s=` → `<unix s>`
+* `pnext o=<options> z=<0|1> d=<none|ns> r=<runes> t=<unix ns>` → model `Parse` then model `Next` in the
+  current zone: `at <unix ns>` | `zero` | `fuel` | `err <kind>` | `panic <why>` (fields as in
+  `kitdrv C04 parser`)
 -/
 namespace Driver.C04Next
 open Kit Kit.CronSpec
@@ -58,6 +63,18 @@ def step (z : Zone) (line : String) : Zone × String :=
     match l.int? "y", l.int? "m", l.int? "d", l.int? "h", l.int? "mi", l.int? "s" with
     | some y, some m, some d, some h, some mi, some s => (z, s!"{goDate z y m d h mi s}")
     | _, _, _, _, _, _ => (z, "error bad date request")
+  | "pnext" =>
+    match l.nat? "o", l.nat? "z", l.get? "d", (l.get? "r").bind Driver.C04Parser.parseRunes,
+        l.int? "t" with
+    | some o, some kz, some d, some r, some t =>
+      let env : Kit.Cron.Env := { knownZone := fun _ => kz != 0, parseDuration := fun _ => d.toInt? }
+      match Kit.CronBridge.parseThenNext env (Kit.Cron.Opts.ofNat o) r z t with
+      | .at n => (z, s!"at {n}")
+      | .zero => (z, "zero")
+      | .fuel => (z, "fuel")
+      | .err e => (z, s!"err {e}")
+      | .panic w => (z, s!"panic {w}")
+    | _, _, _, _, _ => (z, "error bad pnext request")
   | op => (z, s!"error unknown op {op}")
 
 def main (_args : List String) : IO UInt32 := do
